@@ -759,14 +759,27 @@ def run(ctx):
             return None
         n = of_expr(loop.iter.args[0])
         i = loop.target.id
+        # comparisons given a name in the loop body (bound once)
+        flagdefs = {}
+        for st_ in loop.body:
+            if isinstance(st_, ast.Assign) and len(st_.targets) == 1 and isinstance(st_.targets[0], ast.Name) \
+                    and isinstance(st_.value, (ast.Compare, ast.UnaryOp)):
+                nm_ = st_.targets[0].id
+                if sum(1 for x in ast.walk(loop) if isinstance(x, ast.Name) and x.id == nm_ and isinstance(x.ctx, ast.Store)) == 1:
+                    flagdefs[nm_] = st_.value
 
         def split_test(t):
             """(truth in an ordinary iteration i in [0, n-2], truth in the last iteration i == n-1) of a comparison that is affine
             in the loop variable, when both are the same for every n; None otherwise.  `i == n-1`, `i != n-1`, `i < n-1`,
             `i + 1 >= n`, `last - i > 0` ... all separate the last iteration from the others."""
             neg = False
-            while isinstance(t, ast.UnaryOp) and isinstance(t.op, ast.Not):
-                t, neg = t.operand, not neg
+            while True:
+                if isinstance(t, ast.UnaryOp) and isinstance(t.op, ast.Not):
+                    t, neg = t.operand, not neg
+                elif isinstance(t, ast.Name) and t.id in flagdefs:
+                    t = flagdefs[t.id]     # `is_last = i == n - 1` named before it is tested
+                else:
+                    break
             if not (isinstance(t, ast.Compare) and len(t.ops) == 1):
                 return None
             try:
@@ -883,7 +896,10 @@ def run(ctx):
             probs.append("loop runs %r times, not %s" % (n, what))
         if total != Poly.sym(total_param):
             probs.append("sizes sum to %r, not %s" % (total, total_param))
-        if probs:
+        if probs and any(" if " in str(sy_) or "(" in str(sy_).replace("//", "").strip("<>").replace("<", "").replace(">", "") for sy_ in total.symbols()):
+            # the sum contains a term this evaluator could not open (a conditional, a call): not a decided difference
+            ctx.error(key, "sum of the sizes not evaluated: %r" % (total,))
+        elif probs:
             ctx.violation("R14.5", key, "; ".join(probs), file=nt.file, line=lp.lineno)
         else:
             ctx.ok("R14.5", key, sample={"count": what, "sum_of_sizes": "%s (identity holds for every value of the floor division)" % total_param})
@@ -963,12 +979,26 @@ def run(ctx):
                 elif isinstance(n, ast.Call) and isinstance(n.func, ast.Attribute) and n.func.attr in structural and dotted(n.func.value) == "self":
                     primitives.add(g.qualname)
     nsite = 0
+
+    def _only_from_new_tbl(g, depth=0):
+        """a private helper every call of which (by name, anywhere in the program) is made by new_tbl or by another such helper:
+        part of new_tbl's own computation"""
+        if depth > 3 or not g.name.startswith("_") or g.name.startswith("__"):
+            return False
+        callers_ = [h for h in prog.all_functions() if h is not g and any(
+            isinstance(c_, ast.Call) and ((isinstance(c_.func, ast.Attribute) and c_.func.attr == g.name)
+                                          or (isinstance(c_.func, ast.Name) and c_.func.id == g.name)) for c_ in ast.walk(h.node))]
+        return bool(callers_) and all(h.qualname == "CT_Table.new_tbl" or _only_from_new_tbl(h, depth + 1) for h in callers_)
+
+    _ofn = {}
     for g in prog.all_functions():
         for n in ast.walk(g.node):
             if isinstance(n, ast.Call) and isinstance(n.func, ast.Attribute) and n.func.attr in structural:
                 nsite += 1
                 key = "structure:%s" % g.qualname
-                if g.qualname == "CT_Table.new_tbl" or (g.qualname in primitives and dotted(n.func.value) == "self"):
+                if g.qualname not in _ofn:
+                    _ofn[g.qualname] = g.module is omod and _only_from_new_tbl(g)
+                if g.qualname == "CT_Table.new_tbl" or _ofn[g.qualname] or (g.qualname in primitives and dotted(n.func.value) == "self"):
                     ctx.ok("R14.5", key + ":" + n.func.attr, nontrivial=False)
                 else:
                     ctx.violation("R14.5", key, "%s adds or removes table structure (%s) outside new_tbl: nothing keeps every row at "
